@@ -11,7 +11,7 @@ ANCHORS = ["scores.py:Scores._invert_increasing_function", "scores.py:Scores._th
            "scores.py:Scores.threshold_at_tpr", "scores.py:Scores.threshold_at_fnr", "scores.py:Scores.threshold_at_tnr",
            "scores.py:Scores.threshold_at_fpr", "scores.py:Scores.threshold_at_topr", "scores.py:Scores.threshold_at_tonr"]
 RAISES_ARE_VIOLATIONS = True
-DECIDING = {"M-thr": 327549}
+DECIDING = {"M-thr": 327549, "R-alias": 3000}
 THOROUGH_EXTRA = ["W2", "W3"]
 RULE = (
     "Every threshold_at_* call (6 metrics + 6 aliases, 3 methods) is observed by M-thr. For 'linear' calls the monitor evaluates the "
@@ -108,5 +108,15 @@ def execute(ctx, case):
             else:
                 fn(tg, method=method)
         getattr(s, "threshold_at_" + ALIAS[m])(tg)
+        # the alias is the same setter however its target and method are spelled (positional / keyword under the alias's own name)
+        ctx.sess.observe("R-alias")
+        for method in ("lower", "higher", "linear"):
+            prim = np.asarray(fn(tg, method=method))
+            by_kw = np.asarray(getattr(s, "threshold_at_" + ALIAS[m])(**{ALIAS[m]: tg, "method": method}))
+            by_pos = np.asarray(getattr(s, "threshold_at_" + ALIAS[m])(tg, method=method))
+            ctx.sess.check("R-alias", np.array_equal(prim, by_kw, equal_nan=True) and np.array_equal(prim, by_pos, equal_nan=True),
+                           "alias setter differs from the primary setter (target by keyword / positional, same method)",
+                           lambda: {"alias": ALIAS[m], "method": method, "targets": tg, "primary": prim, "alias_keyword": by_kw, "alias_positional": by_pos},
+                           sig=("alias", ALIAS[m], method), key="thr-alias")
     ctx.sess.sig_counts[("case", case["sc"], case["ec"], case["kind"], form, case["ep"] > 0, case["en"] > 0)] += 1
     return nontrivial
